@@ -297,6 +297,9 @@ func (e *Engine) Execute(p *sim.Plan, keepLog bool) (res *sim.RunResult) {
 		sim.SetRandStep(uint64(100 + st.Id))
 		pr := x.procs[st.R%len(x.procs)]
 		label := fmt.Sprintf("step %d %s p%d", st.Id, st.Op, pr.id)
+		if os.Getenv("VERIF_TRACE_STEPS") != "" {
+			fmt.Fprintln(os.Stderr, "procsim:", label, sim.StepString(*st))
+		}
 		switch st.Op {
 		case "open", "kill-open":
 			if pr.live {
@@ -453,6 +456,11 @@ func (e *Engine) Execute(p *sim.Plan, keepLog bool) (res *sim.RunResult) {
 		x.invariants(label)
 		w.Act(nil)
 		w.Log.EndStep(label, true)
+		if len(res.Violations) > 0 {
+			// the lock protocol is broken from here on: two simulated processes inside one cache
+			// would block each other on the index files exactly as two real ones would
+			break
+		}
 	}
 	// the end: whoever is left dies, and the cache must open again
 	for _, pr := range x.procs {
